@@ -277,6 +277,12 @@ func (fr *Frame) libModel(key string, fn *ssa.Function, c *ssa.CallCommon, args 
 		a, _ := lf(0)
 		vc.declareFun("err_notexist", []Sort{SInt}, SBool)
 		return And(Not(Eq(a, I(0))), app(SBool, "err_notexist", a)), true
+	case "context.Cause":
+		// every call site in scope follows <-ctx.Done() or ctx.Err() != nil, where Cause is non-nil
+		r := vc.fresh("cause", SInt)
+		vc.assert(Lt(I(0), r))
+		vc.assume("context.Cause(ctx) is non-nil at its call sites (each follows <-ctx.Done() or ctx.Err() != nil)")
+		return r, true
 	case "context.Background", "context.TODO":
 		r := vc.fresh("ctx", SInt)
 		vc.assert(Lt(I(0), r))
